@@ -82,27 +82,73 @@ def cfg_str(cfg):
     return ",".join("%s=%s" % (k, v) for k, v in sorted(cfg.items()))
 
 
-def run_job_s(job, exe, tier, idx, pid):
-    """one Route S obligation run"""
-    out = os.path.join(OUT, pid, "job%03d.json" % idx)
-    os.makedirs(os.path.dirname(out), exist_ok=True)
-    cmd = [exe, "--cfg", cfg_str(job["cfg"]), "--out", out,
-           "--timeout-ms", str(job.get("timeout_ms", 60000 if tier == "quick" else 300000)),
-           "--budget-s", str(job.get("budget_s", 600 if tier == "quick" else 6000))]
+def run_one(cmd, out, wall_limit):
     t0 = time.time()
     try:
-        r = sh(cmd, timeout=job.get("wall_s", 900 if tier == "quick" else 7200))
+        r = sh(cmd, timeout=wall_limit)
         rc, log = r.returncode, r.stdout
     except subprocess.TimeoutExpired:
         rc, log = -9, "timeout"
-    wall = time.time() - t0
     res = None
     if rc == 0 and os.path.exists(out):
         try:
             res = json.load(open(out))
         except Exception as ex:  # noqa: BLE001
             log += "\nbad json: %s" % ex
-    return {"job": job, "rc": rc, "log": log[-2000:], "wall": wall, "res": res, "cmd": " ".join(cmd)}
+    return rc, log, res, time.time() - t0
+
+
+def merge_parts(parts):
+    """sums the results of the parts of a split job"""
+    m = None
+    for r in parts:
+        if r is None:
+            return None
+        if m is None:
+            m = json.loads(json.dumps(r))
+            continue
+        for k in ("paths", "aborted_infeasible", "aborted_unknown", "aborted_cap", "aborted_ub", "decisions", "queries",
+                  "q_sat", "q_unsat", "q_unknown", "solver_s", "ub_events", "smt2_files"):
+            m[k] += r[k]
+        m["wall_s"] = max(m["wall_s"], r["wall_s"])
+        m["complete"] = m["complete"] and r["complete"]
+        m["budget_hit"] = m["budget_hit"] or r["budget_hit"]
+        for k, v in r["abort_reasons"].items():
+            m["abort_reasons"][k] = m["abort_reasons"].get(k, 0) + v
+        for k, v in r["checks"].items():
+            c = m["checks"].setdefault(k, dict(reached=0, discharged=0, violated=0, unknown=0, confirmed=0))
+            for kk in c:
+                c[kk] += v[kk]
+        m["violations"] += r["violations"]
+        m["samples"] = (m["samples"] + r["samples"])[:3]
+        m["ub_log"] = (m["ub_log"] + r["ub_log"])[:16]
+    return m
+
+
+def run_job_s(job, exe, tier, idx, pid, pool=None):
+    """one Route S obligation run (optionally split into parts explored by separate processes)"""
+    os.makedirs(os.path.join(OUT, pid), exist_ok=True)
+    split = int(job.get("split", 1))
+    base = [exe, "--cfg", cfg_str(job["cfg"]),
+            "--timeout-ms", str(job.get("timeout_ms", 60000 if tier == "quick" else 300000)),
+            "--budget-s", str(job.get("budget_s", 600 if tier == "quick" else 6000))]
+    wall_limit = job.get("wall_s", 900 if tier == "quick" else 7200)
+    t0 = time.time()
+    if split <= 1:
+        out = os.path.join(OUT, pid, "job%03d.json" % idx)
+        rc, log, res, _ = run_one(base + ["--out", out], out, wall_limit)
+    else:
+        cmds = []
+        for part in range(split):
+            out = os.path.join(OUT, pid, "job%03d_p%02d.json" % (idx, part))
+            cmds.append((base + ["--out", out, "--split", str(split), "--part", str(part),
+                                 "--split-depth", str(job.get("split_depth", 14))], out))
+        with cf.ThreadPoolExecutor(max_workers=split) as ex:
+            outs = list(ex.map(lambda c: run_one(c[0], c[1], wall_limit), cmds))
+        rc = 0 if all(o[0] == 0 for o in outs) else [o[0] for o in outs if o[0] != 0][0]
+        log = "\n".join(o[1][-500:] for o in outs if o[0] != 0)
+        res = merge_parts([o[2] for o in outs]) if rc == 0 else None
+    return {"job": job, "rc": rc, "log": log[-2000:], "wall": time.time() - t0, "res": res, "cmd": " ".join(base)}
 
 
 def load_known():
